@@ -420,12 +420,20 @@ func (th *Thread) conv(dst, src types.Type, x Value) Value {
 		m.unsupported("unsafe.Pointer -> " + dst.String())
 	}
 	switch xv := x.(type) {
+	case OBytes:
+		if isString(ud) {
+			return xv.S
+		}
+		return xv
 	case Str:
 		if isString(ud) {
 			return xv
 		}
 		if sl, ok := ud.(*types.Slice); ok {
 			if k, _ := scalarOf(sl.Elem()); k.w == 8 {
+				if xv.Opaque != nil {
+					return OBytes{xv}
+				}
 				bs := m.strBytes(xv)
 				out := make(Slice, len(bs))
 				for i, b := range bs {
